@@ -1635,9 +1635,9 @@ class Tie:
                 pos = ts + 8 + ent * spe_ + 4
                 newd = struct.unpack("<I", arch[pos:pos + 4])[0] + grow
                 hists = [[(0, 16 + grow), (16, 4), (20, 3), (16 + grow, 8)]] if (ent, grow) == (0, 8) else []
-                if (ent, grow) == (1, 8):
-                    # a SUCCESSFUL read ending exactly where the short frame really ends, then "the rest of that frame" (key C20-short-frame-unnoticed-at-read-end)
-                    hists += [[(16, 16), (32, 4), (36, 3)], [(31, 1), (32, 4)]]
+                # a read ending exactly where the short frame really ends (a success before fix b63eccc), then "the rest of that frame"
+                # (key C20-short-frame-unnoticed-at-read-end)
+                hists += [[(16 * ent, 16), (16 * ent + 16, min(grow, 4)), (16 * ent + 16, grow)], [(16 * ent + 15, 1), (16 * ent + 16, 1)]]
                 for _ in range(3 if ctx.quick else 12):
                     h = []
                     for _ in range(rng.randint(3, 7)):
@@ -1658,6 +1658,15 @@ class Tie:
                         rl = [l for l in cl if l.startswith("r ")]
                         if rc != 0 or len(rl) != 2 * len(h):
                             raise Fail("crash / hang (rc=%d): %s" % (rc, (cerr or "")[-300:]))
+                        if h[0] == (16 * ent, 16) and not kv(rl[0])[2]["ret"].startswith("E"):
+                            # the read of exactly the bytes the frame really holds drives the decoder to the end of the frame: the frame is
+                            # complete before the end its entry gives, which is detectable at that point (fix b63eccc)
+                            self.report(dict(replay, failing_read=0),
+                                        "malformed archive (content 30..5f, initCStream(3, checksumFlag %d, maxFrameSize 16); seek-table entry %d: decompressed size %d -> %d, "
+                                        "the frame holds %d bytes): decompress(dst, 16, %d) - exactly the bytes the frame holds - returns %s: the decoder has reported the end "
+                                        "of the frame %d byte(s) before the end its entry gives and the call keeps its position there (cur=%s doff=%s)"
+                                        % (cf, ent, newd - grow, newd, newd - grow, 16 * ent, kv(rl[0])[2]["ret"], grow, kv(rl[0])[2].get("cur"), kv(rl[0])[2].get("doff")),
+                                        key=self.K_SHORTEND)
                         for j, r in enumerate(h):
                             ds, df = kv(rl[j])[2], kv(rl[len(h) + j])[2]
                             es, ef = ds["ret"].startswith("E"), df["ret"].startswith("E")
@@ -1676,6 +1685,63 @@ class Tie:
                         self.report(replay, "history independence on a malformed archive: " + str(e))
                     except (IndexError, KeyError, ValueError) as e:
                         self.report(replay, "history independence: unparsable output (%r)" % (e,), no_input=True)
+
+    def phase_r3_history_independence_random(self):
+        """the same oracle on randomly malformed archives: an entry's decompressed size changed in either direction (short and overlong
+        frames), optionally a compressed size changed (every later frame is looked for at a wrong offset), the entry's checksum flipped,
+        a byte of a frame's payload flipped; random read histories, each read repeated on a fresh reader."""
+        ctx, rng = self.ctx, self.rng
+        x = bytes(range(0x30, 0x30 + 48))
+        xp = self.blob(x, "x")
+        for cf in (0, 1):
+            ap = self.path("r3hr_%d.zst" % cf)
+            rc0, cl0, _ = self.run_c("\n".join(["content_file %s" % xp, "cinit 3 %d 16" % cf, "finish 1000 1000", "save %s" % ap]) + "\n", timeout=30)
+            arch = open(ap, "rb").read() if rc0 == 0 and os.path.exists(ap) else b""
+            spe_ = 12 if cf else 8
+            ts = len(arch) - (17 + 4 * spe_)
+            if len(arch) < 60 or arch[ts:ts + 4] != struct.pack("<I", 0x184D2A5E):
+                self.report(dict(kind="r3", scenario="history-independence-random", cf=cf, rc=rc0, seed=ctx.seed), "could not build the base archive", no_input=True)
+                continue
+            cases, text = [], ["archive_file %s" % ap]
+            for k in range(12 if ctx.quick else 300):
+                ent, grow = rng.choice([0, 1, 2]), rng.choice([-16, -15, -8, -1, 1, 8, 40, 100])
+                pos = ts + 8 + ent * spe_ + 4
+                mods = ["setbytes %d %s" % (pos, struct.pack("<I", max(0, struct.unpack("<I", arch[pos:pos + 4])[0] + grow)).hex())]
+                if rng.random() < 0.3:
+                    p2 = ts + 8 + rng.choice([0, 1, 2]) * spe_
+                    mods.append("setbytes %d %s" % (p2, struct.pack("<I", max(0, struct.unpack("<I", arch[p2:p2 + 4])[0] + rng.choice([-1, 1, 9, -9]))).hex()))
+                if cf and rng.random() < 0.3:
+                    mods.append("setbytes %d %s" % (pos + 4, bytes([arch[pos + 4] ^ 1]).hex()))
+                if rng.random() < 0.3:
+                    fp = rng.randint(9, 70)
+                    mods.append("setbytes %d %s" % (fp, bytes([arch[fp] ^ 0x40]).hex()))
+                h = [(o, rng.choice([0, 1, 3, 8, 16, 17, rng.randint(0, 50)])) for o in (rng.randint(0, 60) for _ in range(rng.randint(3, 8)))]
+                cases.append((mods, h))
+                text += ["# case h%d" % k, "archive_file %s" % ap] + mods + ["open mem"] + ["r %d %d" % r for r in h] + ["close"]
+                for r in h:
+                    text += ["open mem", "r %d %d" % r, "close"]
+            rc, cl, cerr = self.run_c("\n".join(text) + "\n", timeout=300)
+            secs = self.sections(cl)
+            for k, (mods, h) in enumerate(cases):
+                replay = dict(kind="r3", scenario="history-independence-random", cf=cf, archive_hex=arch.hex(), modifications=mods, history=[list(r) for r in h], rc=rc, seed=ctx.seed)
+                try:
+                    rl = [l for l in secs.get("h%d" % k, []) if l.startswith("r ")]
+                    if len(rl) != 2 * len(h):
+                        raise Fail("crash / hang (rc=%d) in or before this case: %s" % (rc, (cerr or "")[-300:]))
+                    for j, r in enumerate(h):
+                        ds, df = kv(rl[j])[2], kv(rl[len(h) + j])[2]
+                        es, ef = ds["ret"].startswith("E"), df["ret"].startswith("E")
+                        if (ef and not es) or (not ef and not es and (ds["ret"] != df["ret"] or ds.get("crc") != df.get("crc"))):
+                            raise Fail("after the history [%s] decompress(dst, %d, %d) returns %s (bytes %s); the same call on a fresh reader returns %s (bytes %s); "
+                                       "archive: content 30..5f, initCStream(3, checksumFlag %d, maxFrameSize 16), then %s"
+                                       % (" ; ".join("r %d %d" % q for q in h[:j]), r[1], r[0], ds["ret"], ds.get("data"), df["ret"], df.get("data"), cf, " ; ".join(mods)))
+                        ctx.count(("r3-histrnd", cf, es, ef, len(mods)))
+                except Fail as e:
+                    self.report(replay, "history independence on a malformed archive: " + str(e))
+                    if rc != 0:
+                        break
+                except (IndexError, KeyError, ValueError) as e:
+                    self.report(replay, "history independence (random): unparsable output (%r)" % (e,), no_input=True)
 
     def phase_r2_raw_frames(self):
         """Archives assembled with the documented raw API (independently compressed frames + ZSTD_seekable_logFrame +
@@ -1988,7 +2054,7 @@ def replay(ctx):
         {"reinit-modes": t.phase_r2_reinit_modes, "checksum-flag": t.phase_r2_checksum_flag, "beyond-end": t.phase_r2_beyond_end,
          "raw-frames": t.phase_r2_raw_frames, "misc": t.phase_r2_misc}.get(rp.get("scenario"), t.phase_r2_endframe_pending)()
     elif kind == "r3":
-        {"numframes-wrap": t.phase_r3_numframes_wrap, "input-side": t.phase_r3_input_side, "history-independence": t.phase_r3_history_independence}.get(rp.get("scenario"), t.phase_r3_numframes_wrap)()
+        {"numframes-wrap": t.phase_r3_numframes_wrap, "input-side": t.phase_r3_input_side, "history-independence": t.phase_r3_history_independence, "history-independence-random": t.phase_r3_history_independence_random}.get(rp.get("scenario"), t.phase_r3_numframes_wrap)()
     elif kind == "corrupt" and rp.get("archive_hex") is not None:
         v = dict(s=None, arch=bytes.fromhex(rp["archive_hex"]), cls="J", note=rp.get("note", ""), log=[], cf=0, id="k0", mode=rp.get("mode") or "mem",
                  reads=[tuple(r) for r in rp.get("reads", [])])
@@ -2020,7 +2086,7 @@ def run(ctx):
     r = ctx.prove()
     t = Tie(ctx, rng)
     import time as _time
-    for ph in (t.phase_rawtable, t.phase_overlong_frame, t.phase_short_frame, t.phase_io_fault, t.phase_reinit, t.phase_r2_endframe_pending, t.phase_r2_reinit_modes, t.phase_r2_checksum_flag, t.phase_r2_beyond_end, t.phase_r2_misc, t.phase_r2_raw_frames, t.phase_r3_numframes_wrap, t.phase_r3_input_side, t.phase_r3_history_independence, t.phase_archives, t.phase_corrupt, t.phase_maxframes):
+    for ph in (t.phase_rawtable, t.phase_overlong_frame, t.phase_short_frame, t.phase_io_fault, t.phase_reinit, t.phase_r2_endframe_pending, t.phase_r2_reinit_modes, t.phase_r2_checksum_flag, t.phase_r2_beyond_end, t.phase_r2_misc, t.phase_r2_raw_frames, t.phase_r3_numframes_wrap, t.phase_r3_input_side, t.phase_r3_history_independence, t.phase_r3_history_independence_random, t.phase_archives, t.phase_corrupt, t.phase_maxframes):
         t0 = _time.time()
         ph()
         core.log("C20 %s: %.1fs (evaluations so far %d)" % (ph.__name__, _time.time() - t0, ctx.cov["evaluations"]))
